@@ -1183,8 +1183,103 @@ def hooks_and_order_stream(ctx, res):
                 elif not enabled and not returned:
                     res.violate("C11:exempt-section-validated", "a section disabled by its application-defined feature flag was held to its rules", case)
 
+def foreign_lists_and_redeclared_flags_stream(ctx, res):
+    """(a) item configurations of ANOTHER live configuration's list (same schema, same item field) that became invalid after they
+    were loaded — a cross-field validator broken by an assignment, a required field reset — are checked when they are taken over
+    by `extend`, `+=`, `+` and whole-list assignment: the operation is refused, or whatever the configuration then holds passes
+    `validate()`; (b) a key first declared as a feature flag and then RE-DECLARED as an ordinary boolean is no flag any more: a
+    document that sets it to false does not exempt the section (a required field left unset, a schema validator that fails:
+    the load is refused), three levels down as well"""
+    import cincoconfig as cc
+    from cincoconfig.support import validator as schema_validator
+    item = cc.Schema()
+    item.name = cc.StringField(required=True, default="n")
+    item.lo = cc.IntField(default=1)
+    item.hi = cc.IntField(default=5)
+    ran = []
+
+    @schema_validator(item)
+    def lo_le_hi(cfg):
+        ran.append(cfg.name)
+        if cfg.lo is not None and cfg.hi is not None and cfg.lo > cfg.hi:
+            raise ValueError("lo > hi")
+    for typed in (False, True):
+        It = cc.make_type(item, "C11Foreign") if typed else item
+        s = cc.Schema()
+        s.pool.items = cc.ListField(It, default=lambda: [])
+        for how_invalid in ("cross-field", "required-reset"):
+            for route in ("extend", "+=", "+", "assign"):
+                a, b = s(), s()
+                b.pool.items = [{"name": "x", "lo": 1, "hi": 2}, {"name": "y"}]
+                if how_invalid == "cross-field":
+                    b.pool.items[0].lo = 50
+                else:
+                    b.pool.items[0].name = None if False else "x"
+                    try:
+                        b.pool.items[0]._data["name"] = None       # what reset_value / a later schema change leaves: a required field holding nothing
+                    except Exception:  # noqa
+                        pass
+                case = {"stream": "foreign-list-items", "config_type": typed, "invalid_by": how_invalid, "route": route}
+                res.case(stable(case), kind="foreign-list-items")
+                del ran[:]
+                try:
+                    if route == "extend":
+                        a.pool.items.extend(b.pool.items)
+                    elif route == "+=":
+                        a.pool.items += b.pool.items
+                    elif route == "+":
+                        a.pool.items = a.pool.items + b.pool.items
+                    else:
+                        a.pool.items = b.pool.items
+                    refused = False
+                except Exception:  # noqa
+                    refused = True
+                if refused:
+                    continue
+                # read declaratively (Config.validate() does not look into its own validated list again: F69)
+                holds_invalid = any(it.name is None or (it.lo is not None and it.hi is not None and it.lo > it.hi) for it in a.pool.items)
+                if holds_invalid:
+                    res.violate("C11:item-not-validated:foreign-list", "items taken over from another configuration's list were inserted without being checked: the operation returned "
+                                "normally and the list holds an item with a required field unset / that fails its schema validator", dict(case, validator_ran_for=list(ran)))
+    # (b)
+    def build(depth):
+        root = cc.Schema()
+        sec = root
+        for k in ("services", "mail", "smtp")[:depth]:
+            sec = sec[k]
+        sec.enabled = cc.FeatureFlagField(default=True)
+        sec.enabled = cc.BoolField(default=True)                     # re-declared: an ordinary boolean now
+        sec.host = cc.StringField(required=True)
+        sec.port = cc.IntField(default=25)
+        calls = []
+
+        @schema_validator(sec if depth else root)
+        def port_rule(cfg):
+            calls.append(1)
+            if cfg.port == 0:
+                raise ValueError("port 0")
+        return root, calls
+    for depth in (0, 1, 3):
+        for doc_inner, why in (({"enabled": False, "port": 25}, "required host unset"), ({"enabled": False, "host": "h", "port": 0}, "validator fails")):
+            root, calls = build(depth)
+            doc = doc_inner
+            for k in reversed(("services", "mail", "smtp")[:depth]):
+                doc = {k: doc}
+            case = {"stream": "redeclared-flag", "depth": depth, "why": why}
+            res.case(stable(case), kind="redeclared-flag")
+            cfg = root()
+            try:
+                cfg.load_tree(doc)
+                returned = True
+            except Exception:  # noqa
+                returned = False
+            if returned:
+                res.violate("C11:required-unset-after-load" if "required" in why else "C11:validator-not-run", "a load returned although the section — whose `enabled` key is an "
+                            "ordinary boolean since it was re-declared — has a required field unset / a failing validator", dict(case, validator_calls=len(calls)))
+
 def run(ctx, n_quick=250, n_thorough=8000):
     res = Result()
+    guard(res, "C11", foreign_lists_and_redeclared_flags_stream, ctx, res)
     guard(res, "C11", hooks_and_order_stream, ctx, res)
     tmp, keypath = P.setup(ctx)
     # run_stream generates schemas with C.gen_schema: use a schema hook
